@@ -210,12 +210,16 @@ def gen_program(rng):
     return prog
 
 
+END_DELAYS = [-1, -1, -2, -0.5, -100]
+
+
 def gen_custom_table(rng):
     t = {}
     for op in ALL_OPS:
         if op in 'r@':
             continue
         t[op] = [rng.choice([0, 0, 1, 1, 1, 2, 3]), rng.choice([0, 0, 0, 1])]
+    t['end'] = rng.choice(END_DELAYS)
     return t
 
 
@@ -244,7 +248,7 @@ def gen_case(streams, tier):
             'tables': ['default', 'custom'],
             'freq': fp,
             'pairs': {'mode': g.choice(['all', 'all', 'named'])},
-            'call': g.choice(['single', 'bulk', 'bulk_dstnets']),
+            'call': g.choice(['single', 'bulk', 'bulk_dstnets', 'bulk_iterators']),
             'scheds': gen_scheds(streams, k),
             'rewrite': g.choice([None, 'optimize', 'optimize', 'one_bit_selects', 'two_way_concat']),
             # a first TimingAnalysis whose user-supplied delay function raises on its k-th call
@@ -550,7 +554,8 @@ def custom_funcs(table):
     d = {}
     for op in ALL_OPS:
         if op in 'r@':
-            d[op] = lambda width: -1
+            # "a negative delay ends the path": -1 is only the value the docstring happens to use
+            d[op] = (lambda v: (lambda width: v))(table.get('end', -1))
         elif op == 'm':
             d[op] = (lambda bp: (lambda mem: bp[0] + bp[1] * mem.bitwidth))(table[op])
         else:
@@ -899,6 +904,10 @@ def check_paths(case, b, g, res, label):
                 _x, dn = blk.net_connections()
                 pr = call('paths', [mode], pyrtl.paths, [byname[s] for s in srcs],
                           {byname[d] for d in dsts}, dst_nets=dn, block=blk)
+            elif mode == 'bulk_iterators':
+                # any iterable of wires will do for src and dst: a tuple here, a generator there
+                pr = call('paths', [mode], pyrtl.paths, tuple(byname[s] for s in srcs),
+                          (byname[d] for d in dsts), block=blk)
             else:
                 pr = call('paths', [mode], pyrtl.paths, [byname[s] for s in srcs],
                           [byname[d] for d in dsts], block=blk)
